@@ -151,6 +151,8 @@ def run(ctx):
             return False
         if k.startswith("elvis_core::network::"):
             return False       # the link itself (C05), reached only through the delivery task
+        if k.startswith("elvis_core::protocols::socket_api::socket::") or k.startswith("elvis_core::protocols::socket_api::{impl#0}::"):
+            return False       # the application-facing socket calls used by the DNS client/server (after the hand-off)
         return True
     table = PC.load_table("panic_c14.json")
     # string slices already proven by N-SLICE
